@@ -198,6 +198,10 @@ func runC09(c *eng.Ctx) {
 		}
 	}
 
+	// ---- R6 (shared with C02.R4)
+	r6 := c.Rule("C09.R6", "B+D", "every item of a (combined) context array carries its own `snapshots`: a fresh map per context, keyed by the names listed for that context's binding type and name, filled from the per-execution cache", 5)
+	runC02R4(c, r6)
+
 	// ---- R4
 	r4 := c.Rule("C09.R4", "B+D:provenance", "Hook.Run writes ConvertBindingContextList(h.Config.Version, UpdateSnapshots(contexts)).Json(); the list has one rendered element per context, in order", 4)
 	runC09R4(c, r4)
